@@ -852,10 +852,6 @@ Definition is_ins (o : op) : bool :=
   match o with Ins _ _ _ => true | In _ (CIns _ _) => true | _ => false end.
 Definition rejected (o : op) (res : result) : bool :=
   match res with Exc _ => true | Ret None => is_ins o | _ => false end.
-(* operations that end in _cleanNamespaces, which may raise after the list was changed *)
-Definition ends_in_clean (o : op) : bool :=
-  match o with SetText _ => true | _ => false end.
-
 Lemma insert_rule_rej rx simple clean rs r index io rs' res :
   insert_rule rx simple clean rs r index io = (rs', res) ->
   (res = Ret None \/ exists e, res = Exc e) -> rs' = rs.
@@ -909,11 +905,310 @@ Proof.
     + destruct (forallb (kind_beq MARGIN_RULE) ks); intros E; inversion E; subst; auto; discriminate.
 Qed.
 
-Theorem rejected_unchanged_main rx rs o rs' res :
-  step rx rs o = (rs', res) -> rejected o res = true ->
-  (ends_in_clean o = true -> res <> Exc NoModificationAllowedErr) -> rs' = rs.
+(* the former refutation witness (C07-namespace-clean-raises, repaired by a5cb308): the call is still rejected, and
+   now leaves the list unchanged *)
+Definition refute_sheet : list rule :=
+  [mkRule NAMESPACE_RULE 1 1 0 [] []; mkRule NAMESPACE_RULE 2 2 0 [] []; mkRule STYLE_RULE 0 0 0 [2%N] []].
+Definition refute_op : op := Ins (Obj (mkRule NAMESPACE_RULE 1 2 0 [] [])) None true.
+
+Lemma clean_raise_restores : step true refute_sheet refute_op = (refute_sheet, Exc NoModificationAllowedErr).
+Proof. vm_compute. reflexivity. Qed.
+
+(* ------------------------------------------------------------------ the _cleanNamespaces call after a parse never raises *)
+Definition is_ns (r : rule) : bool := is_kind NAMESPACE_RULE r.
+Definition gview (r : rule) (d : dict) : dict :=
+  if is_ns r then if dict_has_value d (ruri r) then d else dict_set d (rprefix r) (ruri r) else d.
+
+Lemma ns_view_fold rs : ns_view rs = fold_right gview [] rs.
 Proof.
-  destruct o as [src index io|index|i|p u|p|e|ps|k c]; simpl; intros E Hr Hn.
+  unfold ns_view. rewrite <- (rev_involutive rs) at 2. rewrite fold_left_rev_right. reflexivity.
+Qed.
+
+Lemma has_value_set d p u v : dict_has_value (dict_set d p u) v = true -> v = u \/ dict_has_value d v = true.
+Proof.
+  induction d as [|[p' u'] d IH]; simpl.
+  - rewrite orb_false_r. intros H. apply N.eqb_eq in H. auto.
+  - destruct (N.eqb p' p); simpl.
+    + intros H. apply orb_true_iff in H as [H|H]; [apply N.eqb_eq in H; auto | right; rewrite H; apply orb_true_r].
+    + intros H. apply orb_true_iff in H as [H|H]; [right; now rewrite H|].
+      destruct (IH H) as [A|A]; auto. right. rewrite A. apply orb_true_r.
+Qed.
+
+Lemma has_item_set_same d p u : dict_has_item (dict_set d p u) p u = true.
+Proof.
+  induction d as [|[p' u'] d IH]; simpl.
+  - now rewrite !N.eqb_refl.
+  - destruct (N.eqb p' p) eqn:E; simpl; [now rewrite !N.eqb_refl | now rewrite IH, orb_true_r].
+Qed.
+
+Lemma has_item_set_other d p u q v : N.eqb q p = false -> dict_has_item d p u = true -> dict_has_item (dict_set d q v) p u = true.
+Proof.
+  intros Hq. induction d as [|[p' u'] d IH]; simpl; [discriminate|].
+  destruct (N.eqb p' q) eqn:E; simpl.
+  - apply N.eqb_eq in E. subst p'. rewrite Hq. simpl. auto.
+  - intros H. apply orb_true_iff in H as [H|H]; [now rewrite H | now rewrite (IH H), orb_true_r].
+Qed.
+
+Lemma view_values post u : dict_has_value (fold_right gview [] post) u = true -> memN u (ns_uris post) = true.
+Proof.
+  induction post as [|x post IH]; simpl; [discriminate|]. unfold gview at 1. unfold ns_uris. simpl.
+  fold (ns_uris post). unfold is_ns. destruct (is_kind NAMESPACE_RULE x); auto.
+  unfold memN in *. simpl.
+  destruct (dict_has_value (fold_right gview [] post) (ruri x)) eqn:E.
+  - intros H. now rewrite (IH H), orb_true_r.
+  - intros H. apply has_value_set in H as [H|H]; [subst; now rewrite N.eqb_refl | now rewrite (IH H), orb_true_r].
+Qed.
+
+Definition pfx_fresh (p : N) (rs : list rule) : bool := forallb (fun r => negb (is_ns r && N.eqb (rprefix r) p)) rs.
+
+Lemma view_item_kept pre : forall d p u, pfx_fresh p pre = true -> dict_has_item d p u = true ->
+  dict_has_item (fold_right gview d pre) p u = true.
+Proof.
+  induction pre as [|x pre IH]; simpl; auto. intros d p u Hf H. apply andb_true_iff in Hf as [Hx Hf].
+  unfold gview at 1. destruct (is_ns x) eqn:En; [|now apply IH].
+  destruct (dict_has_value (fold_right gview d pre) (ruri x)); [now apply IH|].
+  apply has_item_set_other; [|now apply IH]. simpl in Hx. now apply negb_true_iff in Hx.
+Qed.
+
+Lemma view_item pre r post :
+  is_ns r = true -> pfx_fresh (rprefix r) pre = true -> memN (ruri r) (ns_uris post) = false ->
+  dict_has_item (ns_view (pre ++ r :: post)) (rprefix r) (ruri r) = true.
+Proof.
+  intros Hn Hf Hm. rewrite ns_view_fold, fold_right_app. apply view_item_kept; auto.
+  simpl. unfold gview at 1. rewrite Hn.
+  destruct (dict_has_value (fold_right gview [] post) (ruri r)) eqn:E.
+  - apply view_values in E. congruence.
+  - apply has_item_set_same.
+Qed.
+
+Lemma ns_uris_app a b : ns_uris (a ++ b) = ns_uris a ++ ns_uris b.
+Proof. unfold ns_uris. apply flat_map_app. Qed.
+
+Lemma countN_app u a b : countN u (a ++ b) = countN u a + countN u b.
+Proof. unfold countN. now rewrite filter_app, app_length. Qed.
+
+Lemma memN_count u l : memN u l = true -> 1 <= countN u l.
+Proof.
+  induction l as [|x l IH]; simpl; [discriminate|]. unfold countN. simpl.
+  destruct (N.eqb u x); simpl; [lia|]. intros H. specialize (IH H). unfold countN in IH. lia.
+Qed.
+
+Lemma not_protected a r b : is_ns r = true -> memN (ruri r) (ns_uris b) = true -> protected (a ++ r :: b) r = false.
+Proof.
+  intros Hn Hm. unfold protected.
+  assert (2 <= countN (ruri r) (ns_uris (a ++ r :: b))).
+  { rewrite ns_uris_app, countN_app. change (r :: b) with ([r] ++ b). rewrite ns_uris_app, countN_app.
+    pose proof (memN_count _ _ Hm). unfold ns_uris at 2. simpl. unfold is_ns in Hn. rewrite Hn. simpl.
+    unfold countN at 2. simpl. rewrite N.eqb_refl. simpl. lia. }
+  destruct (Nat.eqb (countN (ruri r) (ns_uris (a ++ r :: b))) 1) eqn:E; [apply Nat.eqb_eq in E; lia|].
+  now rewrite andb_false_r.
+Qed.
+
+Lemma clean_loop_noraise items rest : forall kept,
+  (forall pre r post, rest = pre ++ r :: post -> is_ns r = true ->
+                      dict_has_item items (rprefix r) (ruri r) = false -> memN (ruri r) (ns_uris post) = true) ->
+  snd (clean_loop items kept rest) = None.
+Proof.
+  induction rest as [|r rest IH]; intros kept H; simpl; auto.
+  assert (Hrec : forall pre r0 post, rest = pre ++ r0 :: post -> is_ns r0 = true ->
+                   dict_has_item items (rprefix r0) (ruri r0) = false -> memN (ruri r0) (ns_uris post) = true).
+  { intros pre r0 post E. apply (H (r :: pre)). now rewrite E. }
+  destruct (is_kind NAMESPACE_RULE r && negb (dict_has_item items (rprefix r) (ruri r))) eqn:E.
+  - apply andb_true_iff in E as [E1 E2]. apply negb_true_iff in E2.
+    rewrite (not_protected (rev kept) r rest E1 (H [] r rest eq_refl E1 E2)). now apply IH.
+  - now apply IH.
+Qed.
+
+(* distinct prefixes among the @namespace rules of a list *)
+Fixpoint dist (rs : list rule) : bool :=
+  match rs with
+  | [] => true
+  | r :: t => (if is_ns r then pfx_fresh (rprefix r) t else true) && dist t
+  end.
+
+Lemma pfx_fresh_app p a b : pfx_fresh p (a ++ b) = pfx_fresh p a && pfx_fresh p b.
+Proof. apply forallb_app. Qed.
+
+Lemma dist_split pre r post : dist (pre ++ r :: post) = true -> is_ns r = true -> pfx_fresh (rprefix r) pre = true.
+Proof.
+  induction pre as [|x pre IH]; simpl; auto. intros H Hn. apply andb_true_iff in H as [Hx H].
+  rewrite (IH H Hn), andb_true_r. destruct (is_ns x) eqn:Ex; auto.
+  rewrite pfx_fresh_app in Hx. apply andb_true_iff in Hx as [_ Hx]. simpl in Hx. apply andb_true_iff in Hx as [Hx _].
+  rewrite Hn in Hx. simpl in Hx. apply negb_true_iff in Hx. rewrite N.eqb_sym, Hx. reflexivity.
+Qed.
+
+Lemma clean_namespaces_noraise rs : dist rs = true -> snd (clean_namespaces rs) = None.
+Proof.
+  intros Hd. unfold clean_namespaces. apply clean_loop_noraise. intros pre r post E Hn Hi.
+  destruct (memN (ruri r) (ns_uris post)) eqn:Em; auto.
+  rewrite E in Hi, Hd. assert (Hf : pfx_fresh (rprefix r) pre = true) by (eapply dist_split; eauto).
+  rewrite (view_item pre r post Hn Hf Em) in Hi. discriminate.
+Qed.
+
+(* the parser keeps the prefixes of its @namespace rules distinct (a second rule with a known prefix replaces the
+   URI instead of being inserted), hence the final _cleanNamespaces of a parse never raises *)
+Definition has_key (d : dict) (p : N) : bool := match dict_get d p with Some _ => true | None => false end.
+Definition keys_ok (d : dict) (rs : list rule) : bool :=
+  forallb (fun r => if is_ns r then has_key d (rprefix r) else true) rs.
+
+Lemma has_key_set d p u q : has_key d q = true -> has_key (dict_set d p u) q = true.
+Proof.
+  unfold has_key. induction d as [|[p' u'] d IH]; simpl; [discriminate|].
+  destruct (N.eqb p' q) eqn:E.
+  - intros _. destruct (N.eqb p' p) eqn:E2; simpl.
+    + apply N.eqb_eq in E. apply N.eqb_eq in E2. subst. now rewrite N.eqb_refl.
+    + now rewrite E.
+  - intros H. destruct (N.eqb p' p) eqn:E2; simpl.
+    + apply N.eqb_eq in E2. subst p'. now rewrite E.
+    + rewrite E. now apply IH.
+Qed.
+
+Lemma has_key_set_same d p u : has_key (dict_set d p u) p = true.
+Proof.
+  unfold has_key. induction d as [|[p' u'] d IH]; simpl; [now rewrite N.eqb_refl|].
+  destruct (N.eqb p' p) eqn:E; simpl; [now rewrite N.eqb_refl | now rewrite E].
+Qed.
+
+Lemma keys_fresh d rs p : keys_ok d rs = true -> dict_get d p = None -> pfx_fresh p rs = true.
+Proof.
+  intros H Hp. unfold keys_ok, pfx_fresh in *. revert H. apply forallb_impl. intros r Hr.
+  destruct (is_ns r); auto. simpl. destruct (N.eqb (rprefix r) p) eqn:E; auto.
+  apply N.eqb_eq in E. subst. unfold has_key in Hr. rewrite Hp in Hr. discriminate.
+Qed.
+
+Lemma dist_insert a b x :
+  dist (a ++ b) = true -> (is_ns x = true -> pfx_fresh (rprefix x) (a ++ b) = true) -> dist (a ++ x :: b) = true.
+Proof.
+  induction a as [|y a IH]; simpl; intros Hd Hx.
+  - rewrite Hd, andb_true_r. destruct (is_ns x); auto.
+  - apply andb_true_iff in Hd as [Hy Hd].
+    rewrite IH; auto.
+    + rewrite andb_true_r. destruct (is_ns y) eqn:Ey; auto.
+      rewrite pfx_fresh_app in *. simpl. apply andb_true_iff in Hy as [H1 H2]. rewrite H1, H2, andb_true_r. simpl.
+      destruct (is_ns x) eqn:Ex; auto. simpl. specialize (Hx eq_refl). simpl in Hx.
+      apply andb_true_iff in Hx as [Hx _]. apply negb_true_iff in Hx.
+      now rewrite N.eqb_sym, Hx.
+    + intros Hn. specialize (Hx Hn). simpl in Hx. now apply andb_true_iff in Hx as [_ Hx].
+Qed.
+
+Lemma dist_insert_at i x rs :
+  dist rs = true -> (is_ns x = true -> pfx_fresh (rprefix x) rs = true) -> dist (insert_at i x rs) = true.
+Proof.
+  intros Hd Hx. unfold insert_at. apply dist_insert; now rewrite firstn_skipn.
+Qed.
+
+Lemma dist_set_head_enc rs e : dist (set_head_enc rs e) = dist rs.
+Proof. destruct rs; reflexivity. Qed.
+Lemma keys_set_head_enc d rs e : keys_ok d (set_head_enc rs e) = keys_ok d rs.
+Proof. destruct rs; reflexivity. Qed.
+
+Lemma keys_insert_at d i x rs :
+  keys_ok d rs = true -> (is_ns x = true -> has_key d (rprefix x) = true) -> keys_ok d (insert_at i x rs) = true.
+Proof.
+  intros H Hx. apply forallb_insert_at; auto. destruct (is_ns x); auto.
+Qed.
+
+Lemma keys_set d p u rs : keys_ok d rs = true -> keys_ok (dict_set d p u) rs = true.
+Proof.
+  unfold keys_ok. apply forallb_impl. intros r. destruct (is_ns r); auto. apply has_key_set.
+Qed.
+
+(* insertRule as the parser calls it (no cleaning for @namespace rules): the list is unchanged, has a new encoding in
+   its @charset rule, or got the rule inserted *)
+Lemma insert_rule_parse_inv rx d rs r :
+  (is_ns r = true -> pfx_fresh (rprefix r) rs = true) ->
+  dist rs = true -> keys_ok d rs = true ->
+  forall clean, (is_ns r = true -> clean = false) ->
+  let rs' := fst (insert_rule rx (Some d) clean rs r None false) in
+  dist rs' = true /\ keys_ok (dict_set d (rprefix r) (ruri r)) rs' = true /\ (is_ns r = false -> keys_ok d rs' = true).
+Proof.
+  intros Hf Hd Hk clean Hc. unfold insert_rule. cbv zeta.
+  assert (Hbase : dist rs = true /\ keys_ok (dict_set d (rprefix r) (ruri r)) rs = true /\ (is_ns r = false -> keys_ok d rs = true)).
+  { repeat split; auto. now apply keys_set. }
+  destruct (place (kinds rs) (rkind r) (length rs) false) as [|i|]; simpl; auto.
+  - assert (Hins : dist (insert_at i r rs) = true /\
+                   keys_ok (dict_set d (rprefix r) (ruri r)) (insert_at i r rs) = true /\
+                   (is_ns r = false -> keys_ok d (insert_at i r rs) = true)).
+    { repeat split.
+      - now apply dist_insert_at.
+      - apply keys_insert_at; [now apply keys_set | intros _; apply has_key_set_same].
+      - intros Hn. apply keys_insert_at; auto. rewrite Hn. discriminate. }
+    fold (is_kind NAMESPACE_RULE r). fold (is_ns r).
+    destruct (is_ns r) eqn:En; auto.
+    destruct (match dict_get d (rprefix r) with Some u => N.eqb u (ruri r) | None => false end); auto.
+    rewrite (Hc eq_refl). auto.
+  - rewrite dist_set_head_enc, !keys_set_head_enc. auto.
+Qed.
+
+Definition PInv (st : pstate) : Prop := dist (p_rules st) = true /\ keys_ok (p_ns st) (p_rules st) = true.
+
+Lemma parse_step_inv rx st p st' : PInv st -> parse_step rx st p = inl st' -> PInv st'.
+Proof.
+  intros [Hd Hk]. unfold parse_step.
+  destruct (match parse_threshold (pkind p) with Some t => Nat.ltb t (p_expected st) | None => false end).
+  { destruct rx; [discriminate|]. intros E; inversion E; subst; split; auto. }
+  destruct (kin (pkind p) parse_discarded_kinds).
+  { intros E; inversion E; subst; split; auto. }
+  destruct (kind_beq (pkind p) NAMESPACE_RULE) eqn:Ens.
+  { destruct (dict_get (p_ns st) (pprefix p)) eqn:Eg.
+    - intros E; inversion E; subst; simpl. split.
+      + clear - Hd. induction (p_rules st) as [|x l IH]; auto. simpl in *. apply andb_true_iff in Hd as [A B].
+        rewrite (IH B), andb_true_r.
+        assert (Hsame : forall y : rule,
+                   is_ns (if is_kind NAMESPACE_RULE y && N.eqb (rprefix y) (pprefix p)
+                          then mkRule (rkind y) (rprefix y) (puri p) (renc y) (ruses y) (rkids y) else y) = is_ns y /\
+                   rprefix (if is_kind NAMESPACE_RULE y && N.eqb (rprefix y) (pprefix p)
+                            then mkRule (rkind y) (rprefix y) (puri p) (renc y) (ruses y) (rkids y) else y) = rprefix y).
+        { intros y. destruct (is_kind NAMESPACE_RULE y && N.eqb (rprefix y) (pprefix p)); auto. }
+        destruct (Hsame x) as [S1 S2]. rewrite S1, S2. destruct (is_ns x); auto.
+        unfold pfx_fresh in *. rewrite forallb_forall in *. intros z Hz. apply in_map_iff in Hz as (y & <- & Hy).
+        destruct (Hsame y) as [T1 T2]. rewrite T1, T2. now apply A.
+      + apply keys_set. unfold keys_ok in *. rewrite forallb_forall in *. intros z Hz.
+        apply in_map_iff in Hz as (y & <- & Hy). specialize (Hk y Hy).
+        destruct (is_kind NAMESPACE_RULE y && N.eqb (rprefix y) (pprefix p)); auto.
+    - set (r := mkRule (pkind p) (pprefix p) (puri p) 0 [] []).
+      assert (Hf : is_ns r = true -> pfx_fresh (rprefix r) (p_rules st) = true).
+      { intros _. simpl. eapply keys_fresh; eauto. }
+      destruct (insert_rule_parse_inv rx (p_ns st) (p_rules st) r Hf Hd Hk false (fun _ => eq_refl)) as (A & B & _).
+      destruct (insert_rule rx (Some (p_ns st)) false (p_rules st) r None false) as [rs res]. simpl in A, B.
+      destruct res; intros E; inversion E; subst; split; auto. }
+  set (built := if kind_beq (pkind p) STYLE_RULE then _ else _).
+  assert (Hb : forall r, built = inl (Some r) -> is_ns r = false).
+  { subst built. intros r. unfold is_ns, is_kind.
+    destruct (kind_beq (pkind p) STYLE_RULE) eqn:E1.
+    { destruct (resolve (p_ns st) (ppfx p)); [|destruct rx]; intros E; inversion E. simpl. exact Ens. }
+    destruct (kind_beq (pkind p) MEDIA_RULE) eqn:E2.
+    { destruct (media_children rx (pkids p)); intros E; inversion E. simpl. exact Ens. }
+    destruct (kind_beq (pkind p) PAGE_RULE) eqn:E3; intros E; inversion E; simpl; exact Ens. }
+  destruct built as [[r|]|e]; [| |discriminate].
+  - assert (Hn := Hb r eq_refl).
+    assert (Hf : is_ns r = true -> pfx_fresh (rprefix r) (p_rules st) = true) by (rewrite Hn; discriminate).
+    destruct (insert_rule_parse_inv rx (p_ns st) (p_rules st) r Hf Hd Hk true) as (A & _ & C); [rewrite Hn; discriminate|].
+    destruct (insert_rule rx (Some (p_ns st)) true (p_rules st) r None false) as [rs res]. simpl in A, C.
+    destruct res; intros E; inversion E; subst; split; auto.
+  - intros E; inversion E; subst; split; auto.
+Qed.
+
+Lemma parse_loop_inv rx ps : forall st st', PInv st -> parse_loop rx st ps = inl st' -> PInv st'.
+Proof.
+  induction ps as [|p ps IH]; simpl; intros st st' H E.
+  - inversion E; subst; auto.
+  - destruct (parse_step rx st p) as [st1|e] eqn:Es; [|discriminate].
+    eapply IH; [|exact E]. pose proof (parse_step_inv _ _ _ _ H Es) as [A B]. split; auto.
+Qed.
+
+Lemma parse_sheet_noraise rx env ps rs e : parse_sheet rx env ps = inl (rs, Some e) -> False.
+Proof.
+  unfold parse_sheet. destruct (parse_loop rx (mkP [] env 0) ps) as [st|x] eqn:E; [|discriminate].
+  intros H. inversion H as [H1].
+  assert (Hi : PInv st) by (eapply (parse_loop_inv rx ps (mkP [] env 0)); [split; reflexivity | exact E]).
+  destruct Hi as [Hd _]. pose proof (clean_namespaces_noraise _ Hd) as Hn. rewrite H1 in Hn. discriminate.
+Qed.
+
+Theorem rejected_unchanged_main rx rs o rs' res :
+  step rx rs o = (rs', res) -> rejected o res = true -> rs' = rs.
+Proof.
+  destruct o as [src index io|index|i|p u|p|e|ps|k c]; simpl; intros E Hr.
   - assert (Hres : res = Ret None \/ exists e, res = Exc e).
     { destruct res as [[v|]|e| |]; try discriminate; eauto. }
     revert E. unfold insert_any.
@@ -952,9 +1247,9 @@ Proof.
       destruct (insert_rule rx None true rs (mkRule CHARSET_RULE 0 0 e [] []) (Some 0%Z) false) as [rs1 res1] eqn:Ei.
       destruct res1 as [v|y| |]; intros E; inversion E; subst.
       eapply insert_rule_rej; [exact Ei|]. right. eauto.
-  - specialize (Hn eq_refl). destruct res as [[v|]|x| |]; try discriminate.
+  - destruct res as [[v|]|x| |]; try discriminate.
     revert E. unfold set_text. destruct (parse_sheet rx [] ps) as [[rs1 [e|]]|e] eqn:Ep; intros E; inversion E; subst; auto.
-    exfalso. apply Hn. f_equal. eapply parse_sheet_exn; eauto.
+    exfalso. eapply parse_sheet_noraise; eauto.
   - destruct (nth_error rs k) as [r|] eqn:En; [|inversion E; subst; discriminate].
     destruct (negb (is_container r)); [inversion E; subst; discriminate|].
     destruct (match c with CIns src index => _ | CDel index => _ | CDelObj i => _ | CText ks => _ end) as [r' res0] eqn:Ec.
@@ -963,14 +1258,6 @@ Proof.
     + destruct res as [[v|]|x| |]; auto.
 Qed.
 
-(* the former refutation witness (C07-namespace-clean-raises, repaired by a5cb308): the call is still rejected, and
-   now leaves the list unchanged *)
-Definition refute_sheet : list rule :=
-  [mkRule NAMESPACE_RULE 1 1 0 [] []; mkRule NAMESPACE_RULE 2 2 0 [] []; mkRule STYLE_RULE 0 0 0 [2%N] []].
-Definition refute_op : op := Ins (Obj (mkRule NAMESPACE_RULE 1 2 0 [] [])) None true.
-
-Lemma clean_raise_restores : step true refute_sheet refute_op = (refute_sheet, Exc NoModificationAllowedErr).
-Proof. vm_compute. reflexivity. Qed.
 
 (* ------------------------------------------------------------------ the parser accepts every valid kind list unchanged *)
 Lemma valid_app_l a b : valid_kinds (a ++ b) = true -> valid_kinds a = true.
